@@ -138,6 +138,9 @@ OnSeq(s, e) ==
   [ st |-> s,
     v  |-> IF a \in {"iter", "toposort", "map", "fold", "for_each"}
              THEN If(C14_Topo(n, q, E), "C14", a)
+           ELSE IF a \in {"for_each_nested", "fold_nested", "map_zip_left", "map_zip_right", "inner_after_nested"}
+             THEN If(C14_Nested(n, q, E, e.res), "C14", a)
+           ELSE IF a \in {"try_fold_nested", "try_for_each_nested"} THEN If(C14_Try(n, q, E, e.fail_at, e.res), "C14", a)
            ELSE IF a = "iter_rev" THEN If(C14_RevTopo(n, q, E), "C14", a)
            ELSE IF a \in {"try_fold", "try_for_each"} THEN If(C14_Try(n, q, E, e.fail_at, e.res), "C14", a)
            ELSE IF a = "iter_insertion_rev" THEN If(C14_InsertionRev(n, q), "C14", a)
@@ -151,6 +154,13 @@ OnGraphInfoRt(s, e) ==
   [ st |-> s,
     v  |-> If(C17_RoundTrip(e.ok, e.equal, e.equal_rev, e.nodes, e.edges, s.giNodes, s.giEdges),
               "C17", "serde round trip") ]
+
+OnGraphInfoRt2(s, e) ==
+  [ st |-> s,
+    v  |-> If(C17_RoundTripAny(e.ok, e.equal), "C17", "round trip with node info " \o e.kind \o " (" \o e.codec \o ")") ]
+
+OnBuildTimeout(s, e) ==
+  [ st |-> s, v |-> If(C18_Prompt(FALSE), "C18", "build() did not finish within the time bound") ]
 
 OnGiIter(s, e) ==
   [ st |-> s,
@@ -346,6 +356,8 @@ Apply(s, e) ==
          [] e.ev = "seq"           -> OnSeq(s, e)
          [] e.ev = "graph_info"    -> OnGraphInfo(s, e)
          [] e.ev = "graph_info_rt" -> OnGraphInfoRt(s, e)
+         [] e.ev = "graph_info_rt2" -> OnGraphInfoRt2(s, e)
+         [] e.ev = "build_timeout" -> OnBuildTimeout(s, e)
          [] e.ev \in {"gi_iter", "gi_iter_rev"} -> OnGiIter(s, e)
          [] e.ev = "call"          -> OnCall(s, e)
          [] e.ev = "start"         -> OnStart(s, e)
